@@ -13,6 +13,8 @@ def run(ctx):
     from rules import C01
     progq = db.program('qmail-queue')
     H = C01.QueueHooks({})
+    from qv.lib import macro_const as _mc
+    H.precise = frozenset(C01.counter_vars(progq.fn('main', 'qmail-queue.c'), _mc(db, 'qmail-queue.c', 'ADDR')))
     eng = Engine(db, progq, H)
     eng.run(progq.fn('main', 'qmail-queue.c'))
     rep.count_states(eng.states, eng.transitions)
